@@ -12,16 +12,32 @@ use crate::emu::EmuConfig;
 /// `l` integers and one object are live when `o` is passed `k` times to a function; every copy is
 /// used, a new object is allocated between the uses, the integers are used afterwards
 pub fn sharing_program(l: usize, closure: bool, k: usize) -> String {
+    sharing_program_kinds(l, closure, k, 0)
+}
+
+/// `kinds`: 0 = the leading variables are integers; 1 = every third one (positions 0, 3, 6, ..) is
+/// an object; 2 = every second one (positions 1, 3, ..) is an object.  Objects are used after the
+/// copies have been consumed, so a register lost while unpacking a copy is observed.
+pub fn sharing_program_kinds(l: usize, closure: bool, k: usize, kinds: usize) -> String {
+    let is_obj = |i: usize| match kinds {
+        0 => false,
+        1 => i % 3 == 0,
+        _ => i % 2 == 1,
+    };
     let mut body = String::new();
     for i in 0..l {
-        body.push_str(&format!("  let v{i}: i64 = a0 + {};\n", 100 + i));
+        if is_obj(i) {
+            body.push_str(&format!("  let v{i}: Box = B(a0 + {}, {i});\n", 100 + i));
+        } else {
+            body.push_str(&format!("  let v{i}: i64 = a0 + {};\n", 100 + i));
+        }
     }
     let (ty, mk) = if closure { ("Fun", "new { ap(x) => (x + a0) + 1 }") } else { ("Box", "B(a0, 7)") };
     let use_ = |o: &str, j: usize| if closure { format!("{o}.ap({j})") } else { format!("({o}.case {{ B(x, y) => (x + y) + {j} }})") };
     body.push_str(&format!("  let o: {ty} = {mk};\n"));
     // the integers are passed along, so that they (and not a continuation closure holding them)
     // sit in the environment in front of the object when it is copied
-    let mut params: Vec<String> = (0..l).map(|i| format!("p{i}: i64")).collect();
+    let mut params: Vec<String> = (0..l).map(|i| if is_obj(i) { format!("p{i}: Box") } else { format!("p{i}: i64") }).collect();
     params.extend((0..k).map(|j| format!("c{j}: {ty}")));
     let mut args: Vec<String> = (0..l).map(|i| format!("v{i}")).collect();
     args.extend((0..k).map(|_| "o".to_string()));
@@ -34,7 +50,7 @@ pub fn sharing_program(l: usize, closure: bool, k: usize) -> String {
         sum = format!("(r{j} + (t{j}.case {{ B(x, y) => x + y }})) + ({sum})");
     }
     for i in 0..l {
-        sum = format!("p{i} + ({sum})");
+        sum = if is_obj(i) { format!("(p{i}.case {{ B(x, y) => x + y }}) + ({sum})") } else { format!("p{i} + ({sum})") };
     }
     callee.push_str(&format!("  {sum}\n"));
     let tail = format!("use_all({})", args.join(", "));
@@ -54,6 +70,7 @@ pub fn run(ctx: &Ctx, acc: &mut Acc, cfg: &EmuConfig, share_of_budget: u32) {
     'sharing: for l in 0..=18usize {
         for closure in [false, true] {
             for k in 2..=4usize {
+              for kinds in 0..3usize {
                 idx += 1;
                 if idx % ctx.nshards != ctx.shard {
                     continue;
@@ -61,9 +78,9 @@ pub fn run(ctx: &Ctx, acc: &mut Acc, cfg: &EmuConfig, share_of_budget: u32) {
                 if t0.elapsed() > deadline {
                     break 'sharing;
                 }
-                let src = sharing_program(l, closure, k);
+                let src = sharing_program_kinds(l, closure, k, kinds);
                 let Ok(st) = stages(&src) else {
-                    acc.infra(format!("directed sharing program does not compile (l={l} closure={closure} k={k})"));
+                    acc.infra(format!("directed sharing program does not compile (l={l} closure={closure} k={k} kinds={kinds})"));
                     continue;
                 };
                 for isa in &isas {
@@ -71,12 +88,13 @@ pub fn run(ctx: &Ctx, acc: &mut Acc, cfg: &EmuConfig, share_of_budget: u32) {
                         continue; // the program prints
                     }
                     acc.evaluations += 1;
-                    let c = LinCase { linear: &st.linear, args: &[5], origin: format!("directed sharing: {l} live integers, {} copied {k} times", if closure { "closure" } else { "object" }), src: Some(&src) };
+                    let c = LinCase { linear: &st.linear, args: &[5], origin: format!("directed sharing: {l} leading variables (kinds {kinds}), {} copied {k} times", if closure { "closure" } else { "object" }), src: Some(&src) };
                     if backend::judge_linear(prop, *isa, acc, &c, cfg) {
                         acc.count("directed_sharing_programs");
                         acc.nontrivial(crate::rng::hash_str(&src) ^ *isa as u64);
                     }
                 }
+              }
             }
         }
     }
